@@ -133,7 +133,7 @@ def teardown_shard(ctx):
         ctx.count(k, v)
 
 
-NB = {"quick": 200, "thorough": 3000}      # Part B hosts (x 1045 slot/sentinel/echo combinations each)
+NB = {"quick": 160, "thorough": 3000}      # Part B hosts (x 1045 slot/sentinel/echo combinations each)
 NA = {"quick": 30000, "thorough": 500000}  # Part A template sets (x 5 contexts each)
 NC = {"quick": 8000, "thorough": 120000}   # Part C sessions on one long-lived renderer (3-9 renderings each)
 ND = {"quick": 600, "thorough": 8000}      # Part D overlapping renderings from 2-3 threads on one renderer
